@@ -19,8 +19,11 @@
      pointers at every point where f.mu is released (sequential execution); both are represented
      by ONE list [f_rs] in rList order (head = Front); the map lookup is "first entry with this
      id" ([lookup]).  Ids in the list are pairwise distinct (proved: [FInv]).
-   - mutexes are not modelled (sequential calls); the [r.done] early return in
-     reassembler.process and the done-check in release are kept branch for branch. *)
+   - mutexes are not modelled HERE (this file: sequential calls); the [r.done] early return and
+     the empty-heap early return in reassembler.process and the done-check in release are kept
+     branch for branch.  Concurrent calls (several goroutines inside Process at once, each phase
+     atomic under its mutex) are modelled in Model/FragConc.v on top of the definitions of this
+     file. *)
 From Coq Require Import ZArith Bool List.
 Import ListNotations.
 Open Scope Z_scope.
@@ -220,14 +223,44 @@ Record pres := mkPres { p_res : list Z; p_done : bool; p_consumed : Z; p_err : b
        consumed = vv.Size()
        r.size += consumed }
      if r.deleted < len(r.holes) { return buffer.VectorisedView{}, false, consumed, nil }
+     if r.heap.Len() == 0 { return buffer.VectorisedView{}, false, consumed, nil }      // commit 3ed1739
      res, err := r.heap.reassemble()
      if err != nil { return buffer.VectorisedView{}, false, consumed, fmt.Errorf(...) }
      return res, true, consumed, nil }
-   (before the repair the err branch was [panic(...)]; see FragP.process_error_reachable) *)
+   History of this function in /repo:
+   - before 81a5c99 the err branch was [panic(...)]; see FragP.process_error_reachable;
+   - before 3ed1739 the [r.heap.Len() == 0] test did not exist ([rprocess_old] below).  A
+     reassembler whose datagram has been reassembled (every hole deleted, heap emptied by
+     reassemble) is marked [done] only later, by Fragmentation.release under f.mu; a second
+     goroutine holding the same *reassembler that enters process in between found r.done == false,
+     filled no hole, passed the [r.deleted < len(r.holes)] test and popped the EMPTY heap: Go panic
+     "index out of range".  Sequentially the state "all holes deleted, heap empty, not done" never
+     reaches process (FragP.RWf), so the branch is dead in [fprocess]; it is live in
+     Model/FragConc.v (FragConcP.concurrent_old_refuted). *)
 Definition set_heap (r : reasm) (h : fheap) : reasm :=
   mkReasm (r_id r) (r_size r) (r_holes r) (r_deleted r) h (r_done r) (r_ctime r).
 
 Definition rprocess (r : reasm) (first last : Z) (more : bool) (pl : list Z) : reasm * pres :=
+  if r_done r then (r, mkPres [] false 0 false false)
+  else
+    let '(r1, used) := updateHoles r first last more in
+    let '(r2, consumed) :=
+      if used then
+        (mkReasm (r_id r1) (r_size r1 + zlen pl) (r_holes r1) (r_deleted r1)
+                 (heap_push (r_heap r1) (mkFrag first pl)) (r_done r1) (r_ctime r1), zlen pl)
+      else (r1, 0) in
+    if r_deleted r2 <? Z.of_nat (length (r_holes r2)) then (r2, mkPres [] false consumed false false)
+    else if (length (r_heap r2) =? 0)%nat then (r2, mkPres [] false consumed false false)
+    else
+      match reassemble (r_heap r2) with
+      | (ROk bytes, h') => (set_heap r2 h', mkPres bytes true consumed false false)
+      | (RErr, h') => (set_heap r2 h', mkPres [] false consumed true false)
+      | (RPanic, h') => (set_heap r2 h', mkPres [] false consumed false true)
+      end.
+
+(* reassembler.process as it was before commit 3ed1739: no [r.heap.Len() == 0] test.  Kept only
+   for FragConcP.concurrent_old_refuted (the schedule on which it pops the empty heap). *)
+Definition rprocess_old (r : reasm) (first last : Z) (more : bool) (pl : list Z) : reasm * pres :=
   if r_done r then (r, mkPres [] false 0 false false)
   else
     let '(r1, used) := updateHoles r first last more in
@@ -349,6 +382,19 @@ Definition fprocess (f : fstate) (id first last : Z) (more : bool) (pl : list Z)
     let f5 := if f_high f4 <? f_size f4 then evict_loop f4 (rev (f_rs f4)) else f4 in
     (f5, (p_res out, p_done out, false)).
 
+(* ------------------------------------------------------------------ call histories
+   one call of Fragmentation.Process: its arguments and the value of time.Now() during the call *)
+Record call := mkCall { c_id : Z; c_first : Z; c_last : Z; c_more : bool; c_pl : list Z; c_now : Z }.
+Definition step (f : fstate) (c : call) : fstate * (list Z * bool * bool) :=
+  fprocess f (c_id c) (c_first c) (c_last c) (c_more c) (c_pl c) (c_now c).
+(* a history of sequential calls: final state and the outputs (returned bytes, done, panicked) *)
+Fixpoint run (f : fstate) (cs : list call) : fstate * list (list Z * bool * bool) :=
+  match cs with
+  | [] => (f, [])
+  | c :: t => let '(f', o) := step f c in let '(f'', os) := run f' t in (f'', o :: os)
+  end.
+Definition conv (o : pres) : list Z * bool * bool := (p_res o, p_done o, false).
+
 (* ------------------------------------------------------------------ ipv4.go, fragment branch of HandlePacket
      more := (h.Flags() & header.IPv4FlagMoreFragments) != 0
      if more || h.FragmentOffset() != 0 {
@@ -413,6 +459,9 @@ Definition slice (D : list Z) (a n : Z) : list Z := ztake n (zdrop a D).
 
 (* one call's fragment description: (first, last, more, payload) *)
 Record fragin := mkIn { i_first : Z; i_last : Z; i_more : bool; i_pl : list Z }.
+
+(* the fragment description of a call *)
+Definition frag_in (c : call) : fragin := mkIn (c_first c) (c_last c) (c_more c) (c_pl c).
 
 (* "f is a fragment of the datagram payload D": 8-aligned start, inside D, carries exactly the
    bytes D[first..last], and the more-fragments flag is set iff it does not end the datagram *)
